@@ -788,10 +788,52 @@ func RunExtType(w *World, r *Report) {
 	// every subtable type the package defines decides the extension type: a list that holds only
 	// types the switch does not know is written with extension type 0 once it needs extension records
 	asserted := map[string]bool{}
+	// constants assigned behind the true side of each type test
+	assignedBehind := map[string]map[int64]bool{}
 	for _, b := range fn.Blocks {
 		for _, in := range b.Instrs {
-			if ta, ok := in.(*ssa.TypeAssert); ok {
-				asserted[ta.AssertedType.String()] = true
+			ta, ok := in.(*ssa.TypeAssert)
+			if !ok {
+				continue
+			}
+			tname := ta.AssertedType.String()
+			asserted[tname] = true
+			if !ta.CommaOk || ta.Referrers() == nil {
+				continue
+			}
+			for _, ref := range *ta.Referrers() {
+				ex, ok := ref.(*ssa.Extract)
+				if !ok || ex.Index != 1 || ex.Referrers() == nil {
+					continue
+				}
+				for _, r2 := range *ex.Referrers() {
+					ifi, ok := r2.(*ssa.If)
+					if !ok {
+						continue
+					}
+					body := ifi.Block().Succs[0]
+					for _, pb := range fn.Blocks {
+						for _, pin := range pb.Instrs {
+							ph, ok := pin.(*ssa.Phi)
+							if !ok {
+								break
+							}
+							for i, e := range ph.Edges {
+								c, isC := bconstInt(e)
+								if !isC || (c != 7 && c != 9) {
+									continue
+								}
+								p := pb.Preds[i]
+								if p == body || body.Dominates(p) {
+									if assignedBehind[tname] == nil {
+										assignedBehind[tname] = map[int64]bool{}
+									}
+									assignedBehind[tname][c] = true
+								}
+							}
+						}
+					}
+				}
 			}
 		}
 	}
@@ -820,7 +862,22 @@ func RunExtType(w *World, r *Report) {
 			continue
 		}
 		k := r.MkKey("exttype", fnName(fn), "subtable type "+n)
+		got7, got9 := false, false
+		for _, nm := range []string{t.String(), types.NewPointer(tn.Type()).String(), tn.Type().String()} {
+			if assignedBehind[nm][7] {
+				got7 = true
+			}
+			if assignedBehind[nm][9] {
+				got9 = true
+			}
+		}
+		want7 := strings.HasPrefix(n, "Gsub") || strings.Contains(n, "SeqContext")
+		want9 := strings.HasPrefix(n, "Gpos") || strings.Contains(n, "SeqContext")
 		if asserted[t.String()] || asserted[types.NewPointer(tn.Type()).String()] || asserted[tn.Type().String()] {
+			if (want7 && !got7) || (want9 && !got9) {
+				r.FailC("exttype", k, []string{"unassigned"}, w.Pos(fn.Pos()), "subtable type "+n+" is tested for, but the case it leads to does not assign the extension lookup type this kind of subtable needs: a list that is recognised by such a subtable is written with extension lookup type 0 once it needs extension records", nil)
+				continue
+			}
 			r.OK("exttype", k, w.Pos(fn.Pos()), "decides the extension lookup type")
 		} else {
 			r.FailC("exttype", k, []string{"unlisted"}, w.Pos(fn.Pos()), "subtable type "+n+" is not among the types from which (LookupList).encode derives the extension lookup type: a lookup list that holds only such subtables and is too large for 16-bit offsets is written with extension lookup type 0 and cannot be read back", nil)
